@@ -52,7 +52,9 @@ def make_clients(counts, seed):
   clients = []
   for i, nb in enumerate(counts):
     batches = [{'x': jnp.asarray(rs.rand(3).astype(np.float32) + 0.1)} for _ in range(nb)]
-    clients.append((b'client_%d' % i, batches, {'c': jnp.asarray(rs.rand(3).astype(np.float32))}))
+    # client ids are arbitrary hashables: include falsy ones (0, b'')
+    cid = {0: 0, 1: b''}.get(i, b'client_%d' % i) if len(counts) >= 3 else b'client_%d' % i
+    clients.append((cid, batches, {'c': jnp.asarray(rs.rand(3).astype(np.float32))}))
   return clients
 
 
@@ -100,7 +102,7 @@ def check_backends(inp):
         except Exception as e:  # pylint: disable=broad-except
           return f'{be} backend ({dev} devices, batch counts {counts}): {type(e).__name__}: {str(e)[:200]}'
         ids = [g[0] for g in got]
-        if sorted(ids) != sorted(want) or len(ids) != len(want):
+        if sorted(map(repr, ids)) != sorted(map(repr, want)) or len(ids) != len(want):
           return f'{be} backend ({dev} devices, batch counts {counts}): results for ids {ids}, expected exactly one per input client'
         if be != 'pmap' and ids != [c[0] for c in clients]:
           return f'{be} backend: results are not in client order'
